@@ -950,6 +950,8 @@ func runCache(keys []int, acts []cact) cacheRun {
 	waitersOn := map[int][]int{} // key -> callers observed waiting on the pending call of key
 	var cls []string
 	var maps []string
+	var hist []string // the observed history: i<t> Get invoked, r<t>:<res> returned, fs<t>/fe<t>:<res> fetch function entered/left, S<map>, G<map>
+	dev := false
 	var cr cacheRun
 	waitDone := func(t int) bool {
 		select {
@@ -970,6 +972,7 @@ func runCache(keys []int, acts []cact) cacheRun {
 			cr.started++
 			entered[t], release[t], done[t] = make(chan struct{}), make(chan int), make(chan struct{})
 			k := keys[t]
+			hist = append(hist, fmt.Sprintf("i%d", t))
 			go func() {
 				v, err := rc.Get(k, func() (int, error) {
 					mu.Lock()
@@ -1000,9 +1003,11 @@ func runCache(keys []int, acts []cact) cacheRun {
 				select {
 				case <-done[t]:
 					c = "r"
+					hist = append(hist, fmt.Sprintf("r%d:%s", t, results[t]))
 				case <-entered[t]:
 					c = "f"
 					cr.fetching = append(cr.fetching, t)
+					hist = append(hist, fmt.Sprintf("fs%d", t))
 				default:
 					if ok, w := rc.VerifWaiters(k); ok && w == len(waitersOn[k])+1 {
 						c = "w"
@@ -1030,22 +1035,43 @@ func runCache(keys []int, acts []cact) cacheRun {
 				break
 			}
 			cr.fetching = append(cr.fetching[:idx], cr.fetching[idx+1:]...)
+			if a.val < 0 {
+				hist = append(hist, fmt.Sprintf("fe%d:err", a.t))
+			} else {
+				hist = append(hist, fmt.Sprintf("fe%d:ok%d", a.t, a.val))
+			}
 			release[a.t] <- a.val
 			if !waitDone(a.t) {
 				cr.desync = "fetcher-did-not-return"
 				break
 			}
+			hist = append(hist, fmt.Sprintf("r%d:%s", a.t, results[a.t]))
 			k := keys[a.t]
-			for _, w := range waitersOn[k] {
-				if !waitDone(w) {
-					cr.desync = "waiter-did-not-return"
+			// were the callers parked on this key's pending call released by this return? (observed, not assumed: the
+			// pending call is gone or its waiter count changed). A released waiter normally returns; an implementation
+			// that lets it do something else — e.g. run its own fetch — is followed, not aborted (dev=1).
+			if exists, nw := rc.VerifWaiters(k); !(exists && nw == len(waitersOn[k]) && nw > 0) {
+				for _, w := range waitersOn[k] {
+					select {
+					case <-done[w]:
+						hist = append(hist, fmt.Sprintf("r%d:%s", w, results[w]))
+					case <-entered[w]:
+						dev = true
+						cr.fetching = append(cr.fetching, w)
+						hist = append(hist, fmt.Sprintf("fs%d", w))
+					case <-time.After(stepTimeout):
+						cr.desync = "waiter-neither-returned-nor-fetched"
+					}
 				}
+				waitersOn[k] = nil
 			}
-			waitersOn[k] = nil
 		case 'S':
 			rc.SetMap(a.m)
+			hist = append(hist, "S"+mapStr(a.m))
 		case 'G':
-			maps = append(maps, mapStr(rc.GetMap()))
+			g := mapStr(rc.GetMap())
+			maps = append(maps, g)
+			hist = append(hist, "G"+g)
 		}
 		if cr.desync != "" {
 			break
@@ -1060,6 +1086,9 @@ func runCache(keys []int, acts []cact) cacheRun {
 			}
 		}
 		cr.reply = "ret=desync:" + cr.desync
+		if cr.desync == "publish-of-non-fetching-caller" {
+			cr.reply = "ret=bad-schedule" // same verdict as the model: this action sequence does not exist for this implementation
+		}
 		return cr
 	}
 	if cr.started == n && len(cr.fetching) == 0 {
@@ -1071,7 +1100,10 @@ func runCache(keys []int, acts []cact) cacheRun {
 		mu.Lock()
 		f0, f1 := fetches[0], fetches[1]
 		mu.Unlock()
-		cr.reply = fmt.Sprintf("ret=%s f=%d,%d cls=%s maps=%s", hx.Join(results, ","), f0, f1, hx.Join(cls, ""), hx.Join(maps, "/"))
+		cr.reply = fmt.Sprintf("ret=%s f=%d,%d cls=%s maps=%s hist=%s", hx.Join(results, ","), f0, f1, hx.Join(cls, ""), hx.Join(maps, "/"), hx.Join(hist, ","))
+		if dev {
+			cr.reply += " dev=1"
+		}
 	}
 	return cr
 }
